@@ -661,6 +661,13 @@ def T7(m, R):
             R.viol(f, rets[0], 'parameter %s is concatenated to the sequence without str(): the documented int argument raises TypeError' % raw[0], construct=name)
             continue
         if any(k == '?' for k, _ in got):
+            # arguments filtered by their truth value before they are written: 0 is an argument like any other (ESC[0J, row 0)
+            filt = [c_ for c_ in ast.walk(retv) if isinstance(c_, (ast.ListComp, ast.GeneratorExp)) and len(c_.generators) == 1 and
+                    isinstance(c_.generators[0].target, ast.Name) and any(is_name(t_, c_.generators[0].target.id) for t_ in c_.generators[0].ifs)]
+            if filt:
+                R.viol(f, rets[0], 'the arguments are filtered by their truth value (%s): an argument of 0 is dropped -- %s(0) gives CSI %s instead of CSI 0 %s'
+                       % (short(filt[0]), name, final, final), construct=name)
+                continue
             R.undecided(f, rets[0], 'return expression has an unfoldable part', construct=name)
             continue
         R.check(got == merge(want), f, rets[0], '%s returns CSI %s %s' % (name, ';'.join(f.params), final),
